@@ -35,6 +35,9 @@ def units(tier):
     add("N group-cancel", [("N", "task")], env=("group",))
     add("B start + R handle0-cancel", [("B", "task"), ("R", "start")], env=("handle0", "group"))
     add("R+R+B group-cancel", [("R", "task"), ("R", "task"), ("B", "task")], env=("group",), J=0)
+    add("R handle0-cancel (cancel may lose the race with the wake-up)", [("R", "task")], env=("handle0",), J=2)
+    add("W handle0-cancel (child swallows and returns)", [("W", "task"), ("R", "task")], env=("handle0",), J=1)
+    add("X handle0-cancel (child replaces the cancellation)", [("X", "task")], env=("handle0",), J=1)
     add("no children, external spawn", [], env=("spawn",), J=3)
     add("R, external spawn", [("R", "soon")], env=("spawn",), J=3)
     add("B, external spawn + group-cancel", [("B", "task")], env=("spawn", "group"), J=2)
